@@ -15,7 +15,7 @@
 From Coq Require Import QArith Qcanon List String Bool Permutation.
 Import ListNotations.
 From S2 Require Import Base.Num Base.Arr Model.Expr Model.Struct Model.Solvers
-     Model.Rates Model.Run Model.Program Proofs.NumQc Proofs.NumLemmas Proofs.InvarianceProofs Proofs.TimeShift Proofs.Scaling Proofs.ShiftBuild Proofs.BuildProofs Proofs.FlowOrder Proofs.AggregateAll Proofs.CompOrder Proofs.PopScale Model.InitPop Gen.SolversGen Props.Examples.
+     Model.Rates Model.Run Model.Program Proofs.NumQc Proofs.NumLemmas Proofs.InvarianceProofs Proofs.TimeShift Proofs.Scaling Proofs.ShiftBuild Proofs.BuildProofs Proofs.FlowOrder Proofs.AggregateAll Proofs.CompOrder Proofs.PopScale Proofs.StratCompsOrder Model.InitPop Gen.SolversGen Props.Examples.
 
 Theorem C15_flow_permutation :
   forall (O : NumOps) (T : NumTheory O) (rate : flow -> F O) (fl fl' : list flow) (c : comp),
@@ -156,6 +156,26 @@ Proof.
     + intros Hn t0 h y0 n s. apply (model_linear_scaling O T); assumption.
 Qed.
 Print Assumptions C15_scaling_model.
+
+(* a stratification uses the list of the compartments it stratifies only as a set: for any list l' with the same members
+   the stratified compartments, the copies of every flow, the layout indices of the initial population, the "every
+   compartment is covered" test of mixing-matrix and age stratifications and the "known compartments" test are the
+   same - so the order in which a stratification lists its compartments, relative to the order in which the model declares
+   them, changes nothing (the repair 8c8093e of /repo made the full-stratification test a comparison of sets) *)
+Theorem C15_stratification_lists_compartments_in_any_order :
+  forall (s : strat) (l' : list string),
+    same_members (s_comps s) l' ->
+    (forall cs, stratify_comps (set_comps s l') cs = stratify_comps s cs)
+    /\ (forall f, stratify_flow (set_comps s l') f = stratify_flow s f)
+    /\ (forall cs, strat_indices (set_comps s l') cs = strat_indices s cs)
+    /\ (forall orig, set_eq_str (s_comps (set_comps s l')) orig = set_eq_str (s_comps s) orig)
+    /\ (forall orig, forallb (fun c => mem_str c orig) (s_comps (set_comps s l')) = forallb (fun c => mem_str c orig) (s_comps s)).
+Proof.
+  intros s l' Hm.
+  exact (conj (stratify_comps_same s l' Hm) (conj (stratify_flow_same s l' Hm) (conj (strat_indices_same s l' Hm)
+        (conj (full_test_same s l' Hm) (known_test_same s l' Hm))))).
+Qed.
+Print Assumptions C15_stratification_lists_compartments_in_any_order.
 
 Example C15_nonvacuous :
   time_free (EAdd (EParam "beta"%string) (EMul (EComp 1) (EConst (1#2)))) = true
